@@ -47,6 +47,7 @@ type Path struct {
 	Cells   map[string]*absint.Cell
 	EndPos  token.Pos
 	Default bool // took the default clause
+	Idx     []absint.IdxRec // index / slice expressions on symbolic containers, with whether the path proves their bounds
 }
 
 func (p *Path) Describe() []string {
@@ -572,6 +573,7 @@ func (m *Model) onePath(name string, op int64, o *absint.Oracle) *Path {
 	}
 	res, end := in.RunFrom(fn, m.Body, m.Header, regs)
 	path.Conds = append([]string(nil), in.CondLog...)
+	path.Idx = append([]absint.IdxRec(nil), in.IdxLog...)
 	if hasParent {
 		path.Conds = append([]string{"ctxp.parent != nil"}, path.Conds...)
 	} else {
